@@ -8,6 +8,7 @@ import WD.Driver.C13
 import WD.Driver.Obs
 import WD.Driver.C08
 import WD.Driver.C12
+import WD.Driver.C18
 open WD.Driver WD.Proto
 
 def handle (line : String) : String :=
@@ -17,6 +18,7 @@ def handle (line : String) : String :=
   | "subcreated" :: ts => c14Line "subcreated" ts
   | "rekey" :: ts => c14Line "rekey" ts
   | "dq" :: ts => c17Line ts
+  | "deb" :: ts => c18Line ts
   | "fd" :: ts => c12Line "fd" ts
   | "fdctor" :: ts => c12Line "fdctor" ts
   | "ib" :: ts => c08Line ts
